@@ -117,6 +117,7 @@ func MatchFunctionsByTopology(oldResults, newResults []FingerprintResult, thresh
 			oldIdx int
 			newIdx int
 			sim    float64
+			same   bool // equal fingerprints: the body did not change
 		}
 
 		// Optimization: Group new functions by FuzzyHash.
@@ -147,15 +148,23 @@ func MatchFunctionsByTopology(oldResults, newResults []FingerprintResult, thresh
 
 					sim := topology.TopologySimilarity(oldTopo, newTopo)
 					if sim >= threshold {
-						candidates = append(candidates, candidate{i, j, sim})
+						same := unmatchedOld[i].Fingerprint == unmatchedNew[j].Fingerprint
+						candidates = append(candidates, candidate{i, j, sim, same})
 					}
 				}
 			}
 		}
 
 		// Use sort.SliceStable for deterministic ordering.
+		// Among equally similar candidates an unchanged body comes first: functions of one shape all
+		// score 1.0 against each other, and a function that was only renamed has to be paired with
+		// itself, not with a same-shaped neighbour (which would report two crossed-over "modified"
+		// renames instead of two pure ones).
 		sort.SliceStable(candidates, func(i, j int) bool {
-			return candidates[i].sim > candidates[j].sim
+			if candidates[i].sim != candidates[j].sim {
+				return candidates[i].sim > candidates[j].sim
+			}
+			return candidates[i].same && !candidates[j].same
 		})
 
 		usedOld := make(map[int]bool)
